@@ -119,6 +119,86 @@ Theorem c04_has_group_no_panic : forall wclass regex ext args c,
 Proof. exact has_group_no_panic. Qed.
 Print Assumptions c04_has_group_no_panic.
 
+Theorem c04_text_no_panic : forall wclass regex ext args c,
+  call_function wclass regex ext FText args <> Panic c.
+Proof. exact text_no_panic. Qed.
+Print Assumptions c04_text_no_panic.
+
+Theorem c04_number_no_panic : forall wclass regex ext args c,
+  call_function wclass regex ext FNumber args <> Panic c.
+Proof. exact number_no_panic. Qed.
+Print Assumptions c04_number_no_panic.
+
+Theorem c04_boolean_no_panic : forall wclass regex ext args c,
+  call_function wclass regex ext FBoolean args <> Panic c.
+Proof. exact boolean_no_panic. Qed.
+Print Assumptions c04_boolean_no_panic.
+
+Theorem c04_and_no_panic : forall wclass regex ext args c,
+  call_function wclass regex ext FAnd args <> Panic c.
+Proof. exact and_no_panic. Qed.
+Print Assumptions c04_and_no_panic.
+
+Theorem c04_or_no_panic : forall wclass regex ext args c,
+  call_function wclass regex ext FOr args <> Panic c.
+Proof. exact or_no_panic. Qed.
+Print Assumptions c04_or_no_panic.
+
+Theorem c04_if_no_panic : forall wclass regex ext args c,
+  call_function wclass regex ext FIf args <> Panic c.
+Proof. exact if_no_panic. Qed.
+Print Assumptions c04_if_no_panic.
+
+Theorem c04_abs_no_panic : forall wclass regex ext args c,
+  call_function wclass regex ext FAbs args <> Panic c.
+Proof. exact abs_no_panic. Qed.
+Print Assumptions c04_abs_no_panic.
+
+Theorem c04_count_no_panic : forall wclass regex ext args c,
+  call_function wclass regex ext FCount args <> Panic c.
+Proof. exact count_no_panic. Qed.
+Print Assumptions c04_count_no_panic.
+
+Theorem c04_default_no_panic : forall wclass regex ext args c,
+  call_function wclass regex ext FDefault args <> Panic c.
+Proof. exact default_no_panic. Qed.
+Print Assumptions c04_default_no_panic.
+
+Theorem c04_join_no_panic : forall wclass regex ext args c,
+  call_function wclass regex ext FJoin args <> Panic c.
+Proof. exact join_no_panic. Qed.
+Print Assumptions c04_join_no_panic.
+
+Theorem c04_reverse_no_panic : forall wclass regex ext args c,
+  call_function wclass regex ext FReverse args <> Panic c.
+Proof. exact reverse_no_panic. Qed.
+Print Assumptions c04_reverse_no_panic.
+
+Theorem c04_sum_no_panic : forall wclass regex ext args c,
+  call_function wclass regex ext FSum args <> Panic c.
+Proof. exact sum_no_panic. Qed.
+Print Assumptions c04_sum_no_panic.
+
+Theorem c04_concat_no_panic : forall wclass regex ext args c,
+  call_function wclass regex ext FConcat args <> Panic c.
+Proof. exact concat_no_panic. Qed.
+Print Assumptions c04_concat_no_panic.
+
+Theorem c04_is_error_no_panic : forall wclass regex ext args c,
+  call_function wclass regex ext FIsError args <> Panic c.
+Proof. exact is_error_no_panic. Qed.
+Print Assumptions c04_is_error_no_panic.
+
+Theorem c04_text_length_no_panic : forall wclass regex ext args c,
+  call_function wclass regex ext FTextLength args <> Panic c.
+Proof. exact text_length_no_panic. Qed.
+Print Assumptions c04_text_length_no_panic.
+
+Theorem c04_text_compare_no_panic : forall wclass regex ext args c,
+  call_function wclass regex ext FTextCompare args <> Panic c.
+Proof. exact text_compare_no_panic. Qed.
+Print Assumptions c04_text_compare_no_panic.
+
 (* ---- builtins that reach Decimal.Mul / Decimal.QuoRem: the zero-divisor and arity guards hold (no bounds or
    division-by-zero panic for any arguments); what is NOT excluded is the decimal library's own panic when
    exponents are more than 2^31 apart (proofs/ExEvalProofs.v quorem_exponent_panics: a model-level witness; no
@@ -147,8 +227,8 @@ Proof. exact mod_zero_divisor. Qed.
 Print Assumptions c04_mod_zero_divisor_is_error.
 
 (* the / operator: a zero divisor is an error value *)
-Theorem c04_divide_by_zero_is_error : forall x y n1 n2,
-  to_number x = Ok n1 -> to_number y = Ok n2 -> mant n2 = 0%Z -> eval_binop ODiv x y = Ret VErr.
+Theorem c04_divide_by_zero_is_error : forall frac_pow x y n1 n2,
+  to_number x = Ok n1 -> to_number y = Ok n2 -> mant n2 = 0%Z -> eval_binop frac_pow ODiv x y = Ret VErr.
 Proof. exact eval_div_zero. Qed.
 Print Assumptions c04_divide_by_zero_is_error.
 
@@ -178,7 +258,7 @@ Print Assumptions c04_arity_rejected_is_error.
    context and the expression, the only panic left is the decimal exponent overflow.
    PARTIAL: (1) hypothesis ext_well_behaved on the functions outside the modelled set: they return, or panic with
    the exponent class only (they are covered by the sweep only; satisfiable: ext_hypothesis_satisfiable);
-   (2) anonymous functions and ^ are outside the expression type; (3) the exponent class itself ---- *)
+   (2) anonymous functions are outside the expression type; (3) the exponent class itself ---- *)
 
 Theorem c04_call_panics_only_on_exponent_overflow_partial : forall wclass regex ext,
   ext_well_behaved ext ->
@@ -186,10 +266,10 @@ Theorem c04_call_panics_only_on_exponent_overflow_partial : forall wclass regex 
 Proof. exact call_function_exponent_only. Qed.
 Print Assumptions c04_call_panics_only_on_exponent_overflow_partial.
 
-Theorem c04_eval_panics_only_on_exponent_overflow_partial : forall wclass regex ext lookup_function,
+Theorem c04_eval_panics_only_on_exponent_overflow_partial : forall wclass regex ext frac_pow lookup_function,
   ext_well_behaved ext ->
-  forall ctx e, eval wclass regex ext lookup_function ctx e <> NoFuel /\
-                forall c, eval wclass regex ext lookup_function ctx e = Panic c -> c = PExponent.
+  forall ctx e, eval wclass regex ext frac_pow lookup_function ctx e <> NoFuel /\
+                forall c, eval wclass regex ext frac_pow lookup_function ctx e = Panic c -> c = PExponent.
 Proof. exact eval_statement. Qed.
 Print Assumptions c04_eval_panics_only_on_exponent_overflow_partial.
 
@@ -205,18 +285,55 @@ Theorem c04_call_never_out_of_fuel : forall wclass regex ext,
 Proof. exact call_function_fuel. Qed.
 Print Assumptions c04_call_never_out_of_fuel.
 
-(* every operator other than / : no panic of any class, for all operands (Multiply checks the exponent sum) *)
-Theorem c04_operators_no_panic : forall op x y c, op <> ODiv -> eval_binop op x y <> Panic c.
+(* every operator other than / , the ^ operator included: no panic of any class, for all operands (Multiply and
+   Exponent check the resulting exponent; the value of a non-integral power is a universally quantified function) *)
+Theorem c04_operators_no_panic : forall frac_pow op x y c, op <> ODiv -> eval_binop frac_pow op x y <> Panic c.
 Proof. exact binop_no_panic_statement. Qed.
 Print Assumptions c04_operators_no_panic.
 
 (* a product whose decimal exponent would leave +-100000 is an error value
    (`@(0.1 ^ 100000 * 0.1 ^ 100000)`; before the repair `@(0.1 ^ 2000000000 * 0.1 ^ 2000000000)` panicked) *)
-Theorem c04_multiply_out_of_range_is_error : forall x y n1 n2, to_number x = Ok n1 -> to_number y = Ok n2 ->
+Theorem c04_multiply_out_of_range_is_error : forall frac_pow x y n1 n2, to_number x = Ok n1 -> to_number y = Ok n2 ->
   (dexp n1 + dexp n2 < - max_number_exponent \/ max_number_exponent < dexp n1 + dexp n2)%Z ->
-  eval_binop OMul x y = Ret VErr.
+  eval_binop frac_pow OMul x y = Ret VErr.
 Proof. exact multiply_out_of_range. Qed.
 Print Assumptions c04_multiply_out_of_range_is_error.
+
+(* a power whose decimal exponent would leave +-100000 is an error value (`@(0.001 ^ 999999999)` panicked) *)
+Theorem c04_power_out_of_range_is_error : forall frac_pow x y n1 n2, to_number x = Ok n1 -> to_number y = Ok n2 ->
+  (dexp n1 * dec_trunc n2 < - max_number_exponent \/ max_number_exponent < dexp n1 * dec_trunc n2)%Z ->
+  eval_binop frac_pow OPow x y = Ret VErr.
+Proof. exact pow_out_of_range. Qed.
+Print Assumptions c04_power_out_of_range_is_error.
+
+(* mod, mean, percent and / : NO panic of any class when the decimal exponents of the numeric arguments are
+   within +-10^9 (the library's exponent-overflow panic needs two exponents about 2^31 apart:
+   c04_exponent_panic_needs_huge_exponents).  Every number an evaluation produces has an exponent within
+   max(100000, length of a text) — that last fact is not proved, which is why the evaluator theorem is _partial *)
+Theorem c04_mod_no_panic : forall wclass regex ext args c,
+  Forall arg_exp_ok args -> call_function wclass regex ext FMod args <> Panic c.
+Proof. exact mod_full. Qed.
+Print Assumptions c04_mod_no_panic.
+
+Theorem c04_mean_no_panic : forall wclass regex ext args c,
+  Forall arg_exp_ok args -> call_function wclass regex ext FMean args <> Panic c.
+Proof. exact mean_full. Qed.
+Print Assumptions c04_mean_no_panic.
+
+Theorem c04_percent_no_panic : forall wclass regex ext args c,
+  Forall arg_exp_ok args -> call_function wclass regex ext FPercent args <> Panic c.
+Proof. exact percent_full. Qed.
+Print Assumptions c04_percent_no_panic.
+
+Theorem c04_divide_no_panic : forall frac_pow x y c,
+  arg_exp_ok x -> arg_exp_ok y -> eval_binop frac_pow ODiv x y <> Panic c.
+Proof. exact divide_full_statement. Qed.
+Print Assumptions c04_divide_no_panic.
+
+Theorem c04_exponent_panic_needs_huge_exponents : forall x y p,
+  dec_quorem x y p = inl PExponent -> (2147483647 - Z.abs p <= Z.abs (dexp x) + Z.abs (dexp y))%Z.
+Proof. exact quorem_exponent_panic_needs_huge_exponents. Qed.
+Print Assumptions c04_exponent_panic_needs_huge_exponents.
 
 (* ---- work of the loops driven by a numeric argument (repeat, round, round_up, round_down) is bounded by
    argument size + result size.  PARTIAL: numeric TEXT arguments are assumed at least as long as the number
@@ -248,7 +365,7 @@ Print Assumptions c04_rounding_places_guarded.
 
 Theorem c04_operator_guards_in_source :
   max_number_exponent_src = max_number_exponent /\ forallb snd operator_guards = true
-  /\ List.length operator_guards = 3%nat.
+  /\ List.length operator_guards = 6%nat.
 Proof. exact operator_guards_in_source. Qed.
 Print Assumptions c04_operator_guards_in_source.
 
